@@ -142,7 +142,7 @@ def extract(scope='lib', overlay=None, force=False):
             return out, units
         # evict old caches (keep disk use bounded)
         olds = sorted(glob.glob(os.path.join(CACHE, 'facts-*')), key=os.path.getmtime)
-        for o in olds[:-3] if len(olds) > 3 else []:
+        for o in olds[:-6] if len(olds) > 6 else []:
             shutil.rmtree(o, ignore_errors=True)
         shutil.rmtree(out, ignore_errors=True)
         os.makedirs(os.path.join(out, 'marks'))
@@ -150,9 +150,7 @@ def extract(scope='lib', overlay=None, force=False):
             json.dump([db[u] for u in units], f)
         extra = []
         if overlay:
-            y = os.path.join(out, 'overlay.yaml')
-            make_overlay_yaml(overlay, y)
-            extra = ['--extra-arg=-ivfsoverlay', '--extra-arg=' + y]
+            extra = ['--map=%s=%s' % (k, v) for k, v in sorted(overlay.items())]
         t0 = time.time()
         # order: big units first, round-robin into batches
         units_sorted = sorted(units, key=lambda u: -os.path.getsize(u))
